@@ -6,7 +6,11 @@
 //     DiGraph<N, E>   edge_seq() : Seq<(source, target)> indexed by EdgeIndex,  edge_weight(e) : E,
 //                     node_count_spec() : nat
 //     BTreeSet<T>     view : Set<T>
-// Contracts are written from the petgraph / std documentation.
+// Contracts are written from the petgraph / std documentation.  Items: Direction, NodeIndex, EdgeIndex, EdgeReference::id,
+// DiGraph (views), axiom_cg_digraph_bounds, verif_neighbors_directed, verif_edges_directed, BTreeSet::{new, insert, contains},
+// verif_btreeset_iter, Index<EdgeIndex> for DiGraph, CgNodeWeights + Index<NodeIndex>, verif_cg_node_indices.
+// (The former shims verif_common_edge_tids -- the ASSUMED meaning of the final filter_map chain -- and verif_find_node_or_panic
+//  are gone: both constructs are now verified, see contracts/callgraph.vc R9 (3) / (4).)
 // (Own file instead of shim/fixpoint.rs: that one fixes BTreeSet to `usize`; this unit needs
 //  BTreeSet<NodeIndex>, BTreeSet<EdgeIndex>, BTreeSet<Tid>, directed neighbour queries and edge weights.)
 // ---------------------------------------------------------------------------
@@ -158,41 +162,70 @@ impl<T> BTreeSet<T> {
 
 // `Jmp` of the intermediate representation is EXTRACTED from /repo (jmp.rs) by the unit; the query never looks into it.
 
-/// Contract of `verif_common_edge_tids`, as a predicate: `r` is the set of the tids of the edges in both `a` and `b`.
-pub open spec fn cg_common_tids<'a, N>(g: DiGraph<N, &'a Term<Jmp>>, a: Set<EdgeIndex>, b: Set<EdgeIndex>, r: Set<Tid>) -> bool {
-    forall |t: Tid| #[trigger] r.contains(t) <==>
-        exists |e: EdgeIndex| a.contains(e) && b.contains(e) && t == (#[trigger] g.edge_weight(e.i as int)).tid
+impl<T> BTreeSet<T> {
+    /// std `BTreeSet::contains`: "Returns true if the set contains an element equal to the value."
+    #[verifier::external_body]
+    pub fn contains(&self, v: &T) -> (r: bool)
+        ensures r == self@.contains(*v)
+    { unimplemented!() }
 }
 
-/// R9 target for the final chain of `find_call_sequences_from_node_to_target`
-///     A.iter().filter_map(|edge| { if B.contains(edge) { Some(GRAPH[*edge].tid.clone()) } else { None } }).collect()
-/// std: `BTreeSet::iter` visits every element of A; `filter_map` keeps the `Some` results; `BTreeSet::contains`
-/// "Returns true if the set contains an element equal to the value"; petgraph `Index<EdgeIndex>`: "Index the Graph
-/// by EdgeIndex to access edge weights. Panics if the edge doesn't exist." (hence the `requires`); derived
-/// `Tid::clone` returns an equal Tid; `collect::<BTreeSet<Tid>>()` builds the set of the collected values.
-/// This is the part of "exactly" in C24 that is ASSUMED: the tid image of the intersection of the two edge sets.
+/// Contract of `verif_btreeset_iter`, as a predicate: every entry of `r` is an element of `s`, and every element
+/// of `s` has an entry.
+pub open spec fn cg_iter_ok<T>(s: Set<T>, r: Seq<&T>) -> bool {
+    &&& forall |k: int| 0 <= k < r.len() ==> s.contains(*#[trigger] r[k])
+    &&& forall |x: T| #[trigger] s.contains(x) ==> exists |k: int| 0 <= k < r.len() && *#[trigger] r[k] == x
+}
+
+/// R9 target for `SET.iter()` at the head of an iterator chain that is rewritten into a `for` loop (the iterator is
+/// materialised as a Vec of references).  std `BTreeSet::iter`: "Gets an iterator that visits the elements in the
+/// BTreeSet in ascending order." (Item = &T.)  Only "every visited item is an element" and "every element is
+/// visited" are assumed; nothing about order or multiplicity.
 #[verifier::external_body]
-pub fn verif_common_edge_tids<'a, N>(g: &DiGraph<N, &'a Term<Jmp>>, a: &BTreeSet<EdgeIndex>, b: &BTreeSet<EdgeIndex>) -> (r: BTreeSet<Tid>)
-    requires
-        forall |e: EdgeIndex| a@.contains(e) && b@.contains(e) ==> e.i < g.edge_seq().len(),
-    ensures
-        cg_common_tids(*g, a@, b@, r@),
+pub fn verif_btreeset_iter<'s, T>(s: &'s BTreeSet<T>) -> (r: Vec<&'s T>)
+    ensures cg_iter_ok(s@, r@)
 { unimplemented!() }
 
-/// `r` is the first node of `g` (in index order) whose weight is `w`.
-pub open spec fn cg_first_node_with<N, E>(g: DiGraph<N, E>, w: N, r: NodeIndex) -> bool {
-    &&& r.i < g.node_count_spec()
-    &&& g.node_weight(r.i as int) == w
-    &&& forall |j: int| 0 <= j < r.i ==> #[trigger] g.node_weight(j) != w
+/// petgraph `impl Index<EdgeIndex<Ix>> for Graph<N, E, Ty, Ix>`: "Index the Graph by EdgeIndex to access edge weights.
+/// Panics if the edge doesn't exist."  "The edge exists" is the PRECONDITION (`index_req`, PROVED at every `graph[e]`),
+/// the result is the edge weight.
+impl<N, E> core::ops::Index<EdgeIndex> for DiGraph<N, E> {
+    type Output = E;
+    #[verifier::external_body]
+    fn index(&self, index: EdgeIndex) -> (r: &E)
+        ensures *r == self.edge_weight(index.i as int)
+    { unimplemented!() }
+}
+impl<N, E> vstd::std_specs::core::IndexSpecImpl<EdgeIndex> for DiGraph<N, E> {
+    open spec fn index_req(&self, index: &EdgeIndex) -> bool { index.i < self.edge_seq().len() }
 }
 
-/// R9 target for `callgraph.node_indices().find(|node| callgraph[*node] == *W).unwrap_or_else(|| panic!(..))`.
-/// petgraph `Graph::node_indices`: "Return an iterator over the node indices of the graph" (0 .. node_count(), ascending);
-/// `Iterator::find`: "Searches for an element of an iterator that satisfies a predicate ... returns the first";
-/// `Index<NodeIndex>`: the node weight; `==` on `Tid` is the derived `PartialEq` (both strings equal), read as
-/// specification equality; `unwrap_or_else(|| panic!(..))`: diverges when there is no such node (as rule R5:
-/// panic-freedom is NOT claimed, after the call a node was found).
+/// A call graph seen through `Index<NodeIndex>` only.  petgraph `impl Index<NodeIndex<Ix>> for Graph<N, E, Ty, Ix>`:
+/// "Index the Graph by NodeIndex to access node weights. Panics if the node doesn't exist."  "The node exists" is the
+/// PRECONDITION (`index_req`, PROVED at every `graph[n]`), the result is the node weight.
+/// (Stated on a transparent view type and not on `DiGraph` itself: the units cfgbuild and reachcheck_243/_367, which
+/// import this file, carry the same `impl Index<NodeIndex> for DiGraph` in their own shims; a second impl on `DiGraph`
+/// would be rejected as overlapping (E0119).  The R9 substitution of the node lookup binds the name `callgraph` to
+/// `CgNodeWeights(callgraph)` for the evaluation of the closure body, which stays verbatim.)
+pub struct CgNodeWeights<'g, N, E>(pub &'g DiGraph<N, E>);
+
+impl<'g, N, E> core::ops::Index<NodeIndex> for CgNodeWeights<'g, N, E> {
+    type Output = N;
+    #[verifier::external_body]
+    fn index(&self, index: NodeIndex) -> (r: &N)
+        ensures *r == self.0.node_weight(index.i as int)
+    { unimplemented!() }
+}
+impl<'g, N, E> vstd::std_specs::core::IndexSpecImpl<NodeIndex> for CgNodeWeights<'g, N, E> {
+    open spec fn index_req(&self, index: &NodeIndex) -> bool { index.i < self.0.node_count_spec() }
+}
+
+/// R9 target for `GRAPH.node_indices()` at the head of an iterator chain that is rewritten into a `for` loop (the
+/// iterator is materialised as a Vec).  petgraph `Graph::node_indices`: "Return an iterator over the node indices of
+/// the graph" -- source: `NodeIndices { r: 0..self.node_count(), .. }`, i.e. the indices 0 .. node_count(), ascending.
 #[verifier::external_body]
-pub fn verif_find_node_or_panic<N, E>(g: &DiGraph<N, E>, w: &N) -> (r: NodeIndex)
-    ensures cg_first_node_with(*g, *w, r)
+pub fn verif_cg_node_indices<N, E>(g: &DiGraph<N, E>) -> (r: Vec<NodeIndex>)
+    ensures
+        r@.len() == g.node_count_spec(),
+        forall |k: int| 0 <= k < r@.len() ==> (#[trigger] r@[k]).i == k,
 { unimplemented!() }
